@@ -7,7 +7,7 @@ Init == sig \in Sigs(MaxParams) \cup ExtSigs /\ done = FALSE
 Next == ~done /\ done' = TRUE /\ UNCHANGED sig
 Spec == Init /\ [][Next]_vars
 \* the first-match fold accepts exactly the signatures C14 calls valid, and picks the stated source
-A_AcceptsIffValid == (sig.place # "typename" /\ OpAccepts(Eff(sig))) <=> ValidX(sig)
+A_AcceptsIffValid == (sig.place \notin {"typename", "unexported"} /\ OpAccepts(Eff(sig))) <=> ValidX(sig)
 A_SourceAsStated == Valid(Eff(sig)) => Classify(Eff(sig)).source = SourceIndex(Eff(sig))
 \* roles are assigned to every parameter, in declared order
 A_Total == Len(Classify(sig).roles) = Len(sig.params)
